@@ -135,4 +135,23 @@ def lastSet : List (Option Nat) → Option Nat
     | some t => some t
     | none => x
 
+/-! ### What the caller has in hand (audit aC09)
+
+"… is cut off with a CANCELLED 'Timeout expired' status once … has elapsed, and is unaffected if it
+finishes before that": whatever the call itself reports — OK or an error status of its own — is its
+result; the deadline machinery may replace it by CANCELLED 'Timeout expired' only when the deadline
+passed first. -/
+
+/-- `own` = the status (code, message) the call itself ends with; `(code, message, time)`. -/
+def report (own : Nat × Bytes) : Expect → Option (Nat × Bytes × Nat)
+  | .finishes t => some (own.1, own.2, t)
+  | .cancelled t => some (cancelledCode, expiredText, t)
+  | .pending => none
+
+/-- One server, several connections: "the locally configured timeout" is the server's, on every
+connection it accepts; each request is judged alone. -/
+def expectedConns (configured : Option Nat) (conns : List (List (Option Nat × Option Nat))) :
+    List (List Expect) :=
+  conns.map (expectedEach configured)
+
 end Spec.Timeout
